@@ -539,7 +539,27 @@ DEEP_EXPONENT_SHAPES = EXPONENT_SHAPES + [
     (5, 6), (0, 10), (2, 3, 11)]
 
 
-def horner_numeric_rule(fn, consts=None, shapes=None):
+def helper_calls(me, class_node, self_value):
+    """calls table entries for the private helper methods of a class:
+    self._helper(...) is interpreted (static methods without the receiver)"""
+    out = {}
+    if class_node is None:
+        return out
+    for st in class_node.body:
+        if isinstance(st, ast.FunctionDef) and st.name.startswith("_") and \
+                not st.name.startswith("__"):
+            static = any(ast.unparse(d) == "staticmethod"
+                         for d in st.decorator_list)
+
+            def call(it, n_, a, k, _fn=st, _static=static):
+                return it.call_function(
+                    _fn, ([] if _static else [self_value]) + list(a),
+                    {"__kwargs__": dict(k)})
+            out[f"{me}.{st.name}"] = call
+    return out
+
+
+def horner_numeric_rule(fn, consts=None, shapes=None, class_node=None):
     """EvaluationMapper.map_polynomial: the value returned for data
     ((e_i, C_i)) and base B is sum C_i * B**e_i, on every exponent shape."""
     params = [a.arg for a in fn.args.args]
@@ -573,11 +593,13 @@ def horner_numeric_rule(fn, consts=None, shapes=None):
             # arithmetic on an expression node builds a tree, not a value
             return Opaque("an expression tree (a coefficient node is used in "
                           f"'{ast.unparse(n_)}' without being evaluated)")
-        it = Interp(calls={f"{me}.rec": rec, me: rec, "<opaque-binop>": tree},
+        self_v = Opaque("self")
+        it = Interp(calls={f"{me}.rec": rec, me: rec, "<opaque-binop>": tree,
+                           **helper_calls(me, class_node, self_v)},
                     attrs=attrs)
         env = dict(consts or {})
         try:
-            got = it.call_function(fn, [Opaque("self"), Opaque("node")], env)
+            got = it.call_function(fn, [self_v, Opaque("node")], env)
         except Raised as r:
             got = f"raises at line {r.node.lineno}"
         want = horner_value(exps)
@@ -618,7 +640,7 @@ def _poly_of_source(src):
     return ev(tree)
 
 
-def horner_text_rule(fn, consts, precs=(0, 100), shapes=None):
+def horner_text_rule(fn, consts, precs=(0, 100), shapes=None, class_node=None):
     """CompileMapper.map_polynomial: the *text* produced for data ((e_i, C_i))
     and base B, read as Python source, denotes sum C_i * B**e_i."""
     params = [a.arg for a in fn.args.args]
@@ -641,11 +663,13 @@ def horner_text_rule(fn, consts, precs=(0, 100), shapes=None):
                 return a.what       # an atom: prints as its own name
             raise AnalysisError(f"printing of {a!r}")
         for prec in precs:
-            it = Interp(calls={f"{me}.rec": rec, me: rec}, attrs=attrs)
+            self_v = Opaque("self")
+            it = Interp(calls={f"{me}.rec": rec, me: rec,
+                               **helper_calls(me, class_node, self_v)},
+                        attrs=attrs)
             env = dict(consts)
             try:
-                got = it.call_function(
-                    fn, [Opaque("self"), Opaque("node"), prec], env)
+                got = it.call_function(fn, [self_v, Opaque("node"), prec], env)
             except Raised as r:
                 got = None
             want = horner_value(exps)
